@@ -16,6 +16,7 @@ import (
 	"sort"
 	"strconv"
 	"sync"
+	"sync/atomic"
 	"time"
 
 	server "Havoc/cmd/server"
@@ -56,6 +57,8 @@ type World struct {
 	Ext  *handlers.External
 	Keys map[uint32]refdemon.Keys
 	Runs int // restarts so far
+
+	restarting int32 // a Restart is between "Start launched" and "operator endpoint up" (atomic)
 }
 
 type Options struct {
@@ -155,6 +158,9 @@ func (w *World) Restart() error {
 		return fmt.Errorf("NewLogr failed on restart")
 	}
 	w.TS = ts
+	// (Close waits for this: Start ends the process when it cannot write its certificate into the run's directory)
+	atomic.StoreInt32(&w.restarting, 1)
+	defer atomic.StoreInt32(&w.restarting, 0)
 	go ts.Start()
 	// the last thing Start does before it parks is to retain the profile event
 	ok := false
@@ -197,6 +203,10 @@ func (w *World) Restart() error {
 var RestartPort = func() string { return "0" }
 
 func (w *World) Close() {
+	// a restart that is still under way (its caller gave up waiting): the directory stays until it is through
+	for end := time.Now().Add(150 * time.Second); atomic.LoadInt32(&w.restarting) != 0 && time.Now().Before(end); {
+		time.Sleep(20 * time.Millisecond)
+	}
 	if w.TS != nil && w.TS.DB != nil {
 		w.TS.DB.VerifClose()
 	}
